@@ -1,6 +1,6 @@
 (* C10 — Notifications and pub/sub: nothing lost, nothing duplicated, in write order.
    Only the property theorems; each is closed by a lemma of Proofs/Queues*.v. *)
-From Coq Require Import List NArith ZArith.
+From Coq Require Import List NArith ZArith Lia.
 From T38 Require Import Model.Queues Proofs.QueuesHookProofs Proofs.QueuesFifoProofs.
 Import ListNotations.
 
@@ -8,8 +8,11 @@ Import ListNotations.
    two halves of Hook.proc of every hook's manager, and every endpoint outcome list, as long as the
    history stays inside the 30 s retention: the messages generated for hook h by the writes, in
    write order, are exactly  delivered ++ being-sent ++ still-queued.  So what has been delivered
-   is a prefix of what was generated: in order, nothing skipped, nothing twice. *)
-Theorem c10_hook_order : forall evs h, in_retention evs ->
+   is a prefix of what was generated: in order, nothing skipped, nothing twice.  The history may
+   contain process restarts (queue.db survives, Server.qidx is read back from "hook:idx"); `quiet`
+   restricts them to instants at which no manager is between its two transactions (what a manager
+   has deleted and not yet sent or re-inserted when the process is killed is lost: stated limit). *)
+Theorem c10_hook_order : forall evs h, in_retention evs -> quiet hq_init evs ->
   let q := qrun hq_init evs in
   enq_msgs h evs = map e_msg (q_delivered q h) ++ map e_msg (pending q h).
 Proof. exact hook_order. Qed.
@@ -17,7 +20,7 @@ Print Assumptions c10_hook_order.
 
 (* ... and once the endpoint answers again, the manager's next rounds deliver all of it. *)
 Theorem c10_hook_eventually_all : forall evs h t1 t2 t3,
-  in_retention (evs ++ [Mgr h t1 []; Mgr h t2 []; Mgr h t3 []]) ->
+  in_retention (evs ++ [Mgr h t1 []; Mgr h t2 []; Mgr h t3 []]) -> quiet hq_init evs ->
   let q := qrun hq_init (evs ++ [Mgr h t1 []; Mgr h t2 []; Mgr h t3 []]) in
   map e_msg (q_delivered q h) = enq_msgs h evs /\ q_db q h = [] /\ taken_list q h = [].
 Proof. exact hook_eventually_all. Qed.
@@ -33,6 +36,7 @@ Print Assumptions c10_hook_no_duplicate_in_order.
 (* An entry owed to a hook leaves the queue only by being delivered or by one of the two TTL tests
    (expired when proc reads the queue; remaining TTL <= 0 when proc re-inserts after a failure). *)
 Theorem c10_ttl_only_loss : forall q ev h e, HInv q ->
+  (forall now, ev = Restart now -> q_taken q h = None) ->
   In e (pending q h) ->
   In e (pending (qstep q ev) h) \/ In e (q_delivered (qstep q ev) h) \/ (e_exat e <= qtime ev)%Z.
 Proof. exact ttl_only_loss. Qed.
@@ -41,8 +45,16 @@ Print Assumptions c10_ttl_only_loss.
 (* (HInv is an invariant of every reachable queue state, so the hypothesis above is satisfiable
    and always satisfied.) *)
 Theorem c10_hook_invariant : forall evs, HInv (qrun hq_init evs).
-Proof. intros evs. apply qrun_hinv. exact hinv_init. Qed.
+Proof. exact qrun_hinv. Qed.
 Print Assumptions c10_hook_invariant.
+
+(* The counter a restarted process reads back ("hook:idx" in queue.db) is the counter the dead process
+   had in memory, after every enqueue: keys are never reused across a restart (c10_hook_order relies
+   on it: with a lagging persisted counter the first batch after a restart would overwrite, or be
+   overwritten by, the entries still queued from before). *)
+Theorem c10_qidx_persisted : forall evs, q_pidx (qrun hq_init evs) = q_idx (qrun hq_init evs).
+Proof. exact qidx_persisted. Qed.
+Print Assumptions c10_qidx_persisted.
 
 (* Pub/sub.  For publishes that do not overlap (geofence events are published under the write lock)
    interleaved arbitrarily with (un)subscriptions of any targets, the second phase of Publish and
@@ -93,11 +105,31 @@ Print Assumptions c10_live_fifo.
 Example c10_nonvacuous :
   let evs := [Enq 0 [(1, 10); (2, 20); (1, 11)]; Mgr 1 5 []; Enq 6 [(1, 12)]; Mgr 1 7 [true; false];
               Mgr 1 600 []; Mgr 1 601 []]%N%Z in
-  in_retention evs /\ enq_msgs 1%N evs = [10; 11; 12]%N /\
+  in_retention evs /\ quiet hq_init evs /\ enq_msgs 1%N evs = [10; 11; 12]%N /\
   map e_msg (q_delivered (qrun hq_init evs) 1%N) = [10; 11; 12]%N /\
   map e_msg (q_delivered (qrun hq_init (firstn 4 evs)) 1%N) = [10]%N /\
   map e_msg (pending (qrun hq_init (firstn 4 evs)) 1%N) = [11; 12]%N.
-Proof. vm_compute. repeat split; repeat constructor; discriminate. Qed.
+Proof.
+  cbv zeta. split; [|split].
+  - unfold in_retention. repeat (apply Forall_cons; [cbn [qtime]; unfold hook_ttl; lia|]). apply Forall_nil.
+  - cbn [quiet]. tauto.
+  - vm_compute. auto.
+Qed.
+
+(* a restart while the endpoint is failing: the batch queued before it and the one queued after it both
+   arrive, in order, once the endpoint recovers *)
+Example c10_restart_while_failing :
+  let evs := [Enq 0 [(1, 10); (1, 11)]; Mgr 1 1 []; Mgr 1 2 [false]; Restart 500; Enq 600 [(1, 12); (1, 13)];
+              Mgr 1 700 []; Mgr 1 701 []]%N%Z in
+  in_retention evs /\ quiet hq_init evs /\
+  map e_msg (q_delivered (qrun hq_init evs) 1%N) = [10; 11; 12; 13]%N /\
+  map e_idx (q_delivered (qrun hq_init evs) 1%N) = [1; 2; 3; 4]%N.
+Proof.
+  cbv zeta. split; [|split].
+  - unfold in_retention. repeat (apply Forall_cons; [cbn [qtime]; unfold hook_ttl; lia|]). apply Forall_nil.
+  - cbn [quiet]. repeat split. intros h. cbn. unfold updf. destruct (N.eqb h 1); reflexivity.
+  - vm_compute. auto.
+Qed.
 
 (* TTL expiry really loses: the same history with the retry after 31 s delivers only the first *)
 Example c10_ttl_loss_example :
